@@ -56,8 +56,9 @@ def fold_variant(n):
 
 
 class Must:
-    def __init__(self, prog):
+    def __init__(self, prog, frozen_names=()):
         self.prog = prog
+        self.frozen_names = set(frozen_names)     # helpers named in the frozen table stay entries even if they now have one caller
         self.memo = {}
         self.per_return = {}
         callers = {}
@@ -73,7 +74,7 @@ class Must:
 
     def own(self, n):
         s = set(families_of_name(n))
-        if n in self.shared:
+        if n in self.shared or fold_variant(n) in self.frozen_names:
             s.add("fn:" + fold_variant(n))
         return s
 
@@ -254,8 +255,8 @@ class Must:
         return self.memo[key]
 
 
-def compute(prog):
-    mu = Must(prog)
+def compute(prog, frozen_names=()):
+    mu = Must(prog, frozen_names)
     out = {}
     for f in sorted(prog.exported(), key=lambda x: x.name):
         if not f.blocks:
@@ -266,7 +267,7 @@ def compute(prog):
 
 def obligations(prog):
     tab = load_table("must_pass.json")
-    mu, cur = compute(prog)
+    mu, cur = compute(prog, {x[3:] for k, v in tab.items() if not k.startswith("_") for x in v if x.startswith("fn:")})
     obs = []
     n = 0
     for fname, fams in sorted(tab.items()):
